@@ -51,10 +51,28 @@ def roots(tier):
         for m in facets(kind):
             for layers in (3,) if tier == "quick" else (3, 5):
                 out.append(("slab", name, m, layers))
+    for name in materials(tier):
+        _, kind = catalog.conventional(name)
+        for f in {"fcc": ("fcc100", "fcc110", "fcc111"), "bcc": ("bcc100",), "hcp": ("hcp0001",), "diamond": ("diamond100", "diamond111")}.get(kind, ()):
+            out.append(("thin", name, f, 3))
     for name in catalog.monolayers():
         for rep in (3, 5) if tier == "quick" else (3, 4, 5, 6):
             out.append(("mono", name, rep))
     return out
+
+
+def thin_slab(name, builder, nlayers):
+    """Slab with exactly `nlayers` atomic layers from the dedicated ASE builder, lateral heights >= 9 A."""
+    import ase.build
+
+    fn = getattr(ase.build, builder)
+    one = fn(name, size=(1, 1, nlayers), vacuum=8.0)
+    c = np.array(one.get_cell())
+    ha = np.linalg.norm(np.cross(c[0], c[1])) / np.linalg.norm(c[1])
+    hb = np.linalg.norm(np.cross(c[0], c[1])) / np.linalg.norm(c[0])
+    s = fn(name, size=(int(np.ceil(9.0 / ha)), int(np.ceil(9.0 / hb)), nlayers), vacuum=8.0)
+    s.set_pbc(True)
+    return s
 
 
 def ads_sites(slab):
@@ -105,8 +123,12 @@ def build(root, tier):
         at = u.repeat((root[2], root[2], 1))
         at.set_pbc(True)
         return at, [([], at)]
-    _, name, m, layers = root
-    slab = catalog.slab(name, tuple(m), layers, True, vacuum=8.0, min_height=9.0)
+    if root[0] == "thin":
+        slab = thin_slab(root[1], root[2], root[3])
+        name = root[1]
+    else:
+        _, name, m, layers = root
+        slab = catalog.slab(name, tuple(m), layers, True, vacuum=8.0, min_height=9.0)
     z_ads = 1 if 1 not in slab.get_atomic_numbers() else 8
     if name in ("C", "Si") or 8 in slab.get_atomic_numbers():
         z_ads = 1
@@ -137,8 +159,12 @@ def check_root(root, tier, seed, res=None, only=None):
         nslab = len(base)
         want_out = list(range(nslab, n))
         s0 = S(at.get_atomic_numbers(), at.get_positions(), np.array(at.get_cell()), at.get_pbc())
+        # ordering with the atom nearest to the centre of the atoms listed first (index 0 is a boundary case for seed handling)
+        ctr = int(np.argmin(np.linalg.norm(s0.pos - s0.pos.mean(0), axis=1)))
+        cfirst = [ctr] + [i for i in range(n) if i != ctr]
         pres = [("id", s0, list(range(n))), ("rot.g0", present.rotate(s0, gr[0]), list(range(n))),
-                ("trans+rev", present.permute(present.translate(s0, np.array([1.3, -2.1, 0.7])), list(range(n))[::-1]), list(range(n))[::-1])]
+                ("trans+rev", present.permute(present.translate(s0, np.array([1.3, -2.1, 0.7])), list(range(n))[::-1]), list(range(n))[::-1]),
+                ("centre.first", present.permute(s0, cfirst), cfirst)]
         for label, s, order in pres:
             if tier == "quick" and ads and label == "rot.g0":
                 continue
@@ -205,6 +231,7 @@ def describe(tier, seed):
     return {
         "rule": "catalogue slabs (fcc/diamond/sc and cubic compounds: (100),(110),(111); bcc: (100); hcp/wurtzite: (001); rutile: (001),(100),(110)) x %s surface-cell layers, lateral heights >= 9 A, fully periodic with 16 A vacuum, "
                 "x adsorbate sets = all subsets of {top, bridge, hollow} of size <= %d (H, or O where H is in the slab; placed along the normal at a 0.3 A gap) x {identity, generic rotation, translation + reversed order}; "
+                "thin slabs with exactly three atomic layers from the dedicated ASE builders (fcc100/110/111, bcc100, hcp0001, diamond100/111) for every elemental catalogue material; an ordering with the centre atom first; "
                 "monolayer supercells (graphene, h-BN, MoS2 2H/1T, WS2). states = classify executions" % ("3" if tier == "quick" else "3 and 5", 1 if tier == "quick" else 2),
         "nontrivial_rule": "each (material, facet, layers) / monolayer root",
         "bounds": {"materials": materials(tier), "roots": len(roots(tier))},
